@@ -1,6 +1,6 @@
 (** C12 — proofs about the stack block / top / size-word arithmetic (Alloc/StackModel.v). *)
-From Coq Require Import ZArith List Bool Lia.
-From MT Require Import Alloc.SizeClassModel Alloc.SizeClassProofs Alloc.FlmallocModel Alloc.StackModel.
+From Coq Require Import ZArith List Bool Lia Permutation.
+From MT Require Import Alloc.SizeClassModel Alloc.SizeClassProofs Alloc.FlmallocModel Alloc.FlmallocProofs Alloc.StackModel.
 Import ListNotations.
 Local Open Scope Z_scope.
 
@@ -96,3 +96,403 @@ Proof.
   intros. unfold desc_get, desc_release. cbn [s_desc pop_w]. rewrite Nat.eqb_refl.
   destruct st; reflexivity.
 Qed.
+
+(** * blocks inside regions, abstractly *)
+Definition BInv (B R : list (Z * Z)) : Prop :=
+  pairwise B /\ pairwise R /\ (forall b, In b B -> 0 < snd b /\ exists r, In r R /\ inside b r).
+
+Lemma BInv_perm B B' R : Permutation B B' -> BInv B R -> BInv B' R.
+Proof.
+  intros HP (H1 & H2 & H3). split; [eapply pairwise_perm; eassumption|]. split; [exact H2|].
+  intros b Hb. apply H3. eapply Permutation_in; [apply Permutation_sym; exact HP|exact Hb].
+Qed.
+
+Lemma BInv_fresh (mmap : list region -> Z -> Z) B R a len newb :
+  (forall regs len r, 0 < len -> In r regs -> disj (mmap regs len, len) r) ->
+  BInv B R -> 0 < len -> a = mmap R len -> pairwise newb ->
+  (forall b, In b newb -> 0 < snd b /\ inside b (a, len)) ->
+  BInv (newb ++ B) ((a, len) :: R).
+Proof.
+  intros Hfresh (HP & HR & HI) Hlen Ha Hnew Hin.
+  assert (Hfr : forall r, In r R -> disj (a, len) r) by (intros r Hr; subst a; apply Hfresh; assumption).
+  split; [|split].
+  - apply pairwise_app. split; [exact Hnew|]. split; [exact HP|].
+    intros x y Hx Hy. destruct (HI y Hy) as (_ & r & Hr & Hyr).
+    eapply disj_inside; [apply Hin; exact Hx|exact Hyr|apply Hfr; exact Hr].
+  - cbn [pairwise]. split; [|exact HR]. rewrite Forall_forall. exact Hfr.
+  - intros b Hb. apply in_app_or in Hb. destruct Hb as [Hb|Hb].
+    + destruct (Hin b Hb) as (Hpos & Hins). split; [exact Hpos|]. exists (a, len). split; [left; reflexivity|exact Hins].
+    + destruct (HI b Hb) as (Hpos & r & Hr & Hbr). split; [exact Hpos|]. exists r. split; [right; exact Hr|exact Hbr].
+Qed.
+
+Lemma perm_pull {A} (P X X' Q : list A) x : Permutation X (x :: X') -> Permutation (P ++ X ++ Q) (x :: P ++ X' ++ Q).
+Proof.
+  intros H. eapply perm_trans; [apply Permutation_app_head; apply Permutation_app_tail; exact H|].
+  cbn [app]. apply Permutation_sym, Permutation_middle.
+Qed.
+
+Lemma perm_pull_end {A} (P X X' : list A) x : Permutation X (x :: X') -> Permutation (P ++ X) (x :: P ++ X').
+Proof.
+  intros H. eapply perm_trans; [apply Permutation_app_head; exact H|]. apply Permutation_sym, Permutation_middle.
+Qed.
+
+Lemma perm_push {A} (ML ML' P X Q : list A) x : Permutation ML (x :: ML') ->
+  Permutation (ML ++ P ++ X ++ Q) (ML' ++ P ++ (x :: X) ++ Q).
+Proof.
+  intros H. eapply perm_trans; [apply Permutation_app_tail; exact H|]. cbn [app].
+  eapply perm_trans; [apply Permutation_middle|]. apply Permutation_app_head.
+  apply (Permutation_middle P (X ++ Q) x).
+Qed.
+
+(** what an allocation does to the set of blocks *)
+Lemma flmalloc_cases (mmap : list region -> Z -> Z) f w size p f' i rs :
+  size_class size = Class i rs -> flmalloc mmap f w size = AOk p f' ->
+  (fl_regs f' = fl_regs f /\
+   Permutation (map blk_of_ent (fl_lists f)) ((p, 2 ^ i) :: map blk_of_ent (fl_lists f'))) \/
+  (exists len newb, fl_regs f' = (p, len) :: fl_regs f /\ p = mmap (fl_regs f) len /\ 0 < len /\
+     Permutation ((p, 2 ^ i) :: map blk_of_ent (fl_lists f')) (newb ++ map blk_of_ent (fl_lists f)) /\
+     pairwise newb /\ (forall b, In b newb -> 0 < snd b /\ inside b (p, len))).
+Proof.
+  intros Ec Hm. destruct (size_class_Class _ _ _ Ec) as (Hrs & Hi).
+  assert (Hpos : 0 < 2 ^ i) by (apply Z.pow_pos_nonneg; lia).
+  unfold flmalloc in Hm. rewrite Ec in Hm.
+  destruct (fl_pop w i (fl_lists f)) as [[q r]|] eqn:Ep.
+  - injection Hm as -> <-. left. cbn [fl_regs fl_lists]. split; [reflexivity|].
+    apply fl_pop_perm in Ep. apply (Permutation_map blk_of_ent) in Ep. exact Ep.
+  - right. destruct (rs <? PAGE_SIZE) eqn:Esm.
+    + apply Z.ltb_lt in Esm. subst rs.
+      pose proof (small_class_idx i Hi Esm) as Hi12.
+      destruct (page_split i ltac:(lia)) as (Hsplit & Hk).
+      set (a := mmap (fl_regs f) PAGE_SIZE) in *.
+      destruct (carve CARVE_FUEL (a + 2 ^ i) (a + PAGE_SIZE) (2 ^ i)) as [ps|] eqn:Ecv; [|discriminate].
+      injection Hm as <- <-.
+      replace (a + PAGE_SIZE) with ((a + 2 ^ i) + (2 ^ (12 - i) - 1) * 2 ^ i) in Ecv by lia.
+      destruct (carve_spec (2 ^ i) Hpos CARVE_FUEL (a + 2 ^ i) (2 ^ (12 - i) - 1) ps ltac:(lia) Ecv) as (HF & HPc).
+      exists PAGE_SIZE, ((a, 2 ^ i) :: map (fun q => (q, 2 ^ i)) ps). cbn [fl_regs fl_lists].
+      split; [reflexivity|]. split; [reflexivity|]. split; [unfold PAGE_SIZE; lia|]. split; [|split].
+      * cbn [app]. apply perm_skip. rewrite map_app, map_rev, map_map. cbn [blk_of_ent fst snd].
+        apply Permutation_app_tail. apply Permutation_sym, Permutation_rev.
+      * cbn [pairwise]. split; [|exact HPc].
+        rewrite Forall_map. eapply Forall_impl; [|exact HF]. intros q Hq. cbv beta in Hq. left. cbn. lia.
+      * intros b [<-|Hb].
+        -- cbn. unfold inside; cbn. lia.
+        -- apply in_map_iff in Hb. destruct Hb as (q & <- & Hq).
+           rewrite Forall_forall in HF. specialize (HF q Hq). cbn. unfold inside; cbn. lia.
+    + apply Z.ltb_ge in Esm. injection Hm as <- <-. subst rs.
+      exists (2 ^ i), [(mmap (fl_regs f) (2 ^ i), 2 ^ i)]. cbn [fl_regs fl_lists app].
+      split; [reflexivity|]. split; [reflexivity|]. split; [exact Hpos|]. split; [apply Permutation_refl|].
+      split; [cbn; split; [constructor|exact I]|].
+      intros b [<-|[]]. cbn. unfold inside; cbn. lia.
+Qed.
+
+Lemma pop_w_perm w : forall l p r, pop_w w l = Some (p, r) -> Permutation l ((w, p) :: r).
+Proof.
+  induction l as [|[w' q] l IH]; intros p r H; cbn [pop_w] in H; [discriminate|].
+  destruct (Nat.eqb w' w) eqn:E.
+  - apply Nat.eqb_eq in E. injection H as -> ->. subst. apply Permutation_refl.
+  - destruct (pop_w w l) as [[q' r']|] eqn:E2; [|discriminate].
+    injection H as -> <-. eapply perm_trans; [apply perm_skip; apply IH; reflexivity|apply perm_swap].
+Qed.
+
+Lemma item_remove_perm k p : forall l it r, item_remove k p l = Some (it, r) ->
+  Permutation l (it :: r) /\ i_kind it = k /\ i_ptr it = p.
+Proof.
+  induction l as [|x l IH]; intros it r H; cbn [item_remove] in H; [discriminate|].
+  destruct (Bool.eqb (i_kind x) k && Z.eqb (i_ptr x) p)%bool eqn:E.
+  - apply andb_true_iff in E. destruct E as (E1 & E2). apply eqb_prop in E1. apply Z.eqb_eq in E2.
+    injection H as -> ->. repeat split; auto.
+  - destruct (item_remove k p l) as [[y r']|] eqn:E2; [|discriminate].
+    injection H as -> <-. destruct (IH _ _ eq_refl) as (HP & Hk & Hp). repeat split; auto.
+    eapply perm_trans; [apply perm_skip; exact HP|apply perm_swap].
+Qed.
+
+Section Oracle.
+  Variable mmap : list region -> Z -> Z.
+  Variable gsz dsz : Z.
+  Hypothesis mmap_fresh : forall regs len r, 0 < len -> In r regs -> disj (mmap regs len, len) r.
+  Hypothesis gsz_ok : 16 <= gsz /\ gsz + 4095 < 2 ^ 64.
+  Hypothesis dsz_ok : 1 <= dsz /\ dsz + 4095 < 2 ^ 64.
+
+  Definition word_ok (m : mem) (it : item) : Prop :=
+    i_kind it = true ->
+    load m (i_ptr it + 8) = i_word it /\
+    fst (i_blk it) <= i_ptr it + 8 /\ i_ptr it + 16 <= fst (i_blk it) + snd (i_blk it) /\
+    ((i_word it = 0 /\ i_blk it = def_blk gsz (i_ptr it)) \/
+     (i_word it <> 0 /\ exists i, size_class (i_word it) = Class i (2 ^ i) /\
+                                  i_blk it = (i_ptr it - i_word it + 16, 2 ^ i))).
+  Definition desc_ok (it : item) : Prop := i_kind it = false -> i_blk it = desc_blk dsz (i_ptr it).
+  Definition def_ok (m : mem) (e : nat * Z) : Prop := load m (snd e + 8) = 0.
+
+  Definition SInv (h : hs) : Prop :=
+    BInv (all_blocks gsz dsz h) (fl_regs (s_fl (hs_st h))) /\
+    Forall (word_ok (s_mem (hs_st h))) (hs_live h) /\
+    Forall desc_ok (hs_live h) /\
+    Forall (def_ok (s_mem (hs_st h))) (s_def (hs_st h)).
+
+  Lemma SInv_init : SInv hs_init.
+  Proof.
+    split; [|split; [constructor|split; constructor]].
+    split; [exact I|]. split; [exact I|]. intros b [].
+  Qed.
+
+  Lemma def_blk_holds top :
+    fst (def_blk gsz top) <= top + 8 /\ top + 16 <= fst (def_blk gsz top) + snd (def_blk gsz top) /\ 0 < snd (def_blk gsz top).
+  Proof.
+    destruct gsz_ok as (G1 & G2). destruct (round_page_spec gsz ltac:(lia) G2) as (Hr & _ & _).
+    unfold def_blk; cbn [fst snd]. lia.
+  Qed.
+
+  (** a store into the word of a block does not change the word of any disjoint block *)
+  Lemma load_frame m A v nb xb xp :
+    disj nb xb -> fst nb <= A -> A + 8 <= fst nb + snd nb ->
+    fst xb <= xp + 8 -> xp + 16 <= fst xb + snd xb ->
+    load (store m A v) (xp + 8) = load m (xp + 8).
+  Proof. intros Hd H1 H2 H3 H4. apply load_store_other. unfold disj in Hd. lia. Qed.
+
+  Lemma word_ok_frame m A v nb it :
+    word_ok m it -> disj nb (i_blk it) -> fst nb <= A -> A + 8 <= fst nb + snd nb ->
+    word_ok (store m A v) it.
+  Proof.
+    intros Hw Hd H1 H2 Hk. destruct (Hw Hk) as (Hl & Hc1 & Hc2 & Hsh).
+    split; [|auto]. rewrite (load_frame m A v nb (i_blk it) (i_ptr it)); auto.
+  Qed.
+
+  Lemma def_ok_frame m A v nb e :
+    def_ok m e -> disj nb (def_blk gsz (snd e)) -> fst nb <= A -> A + 8 <= fst nb + snd nb ->
+    def_ok (store m A v) e.
+  Proof.
+    intros Hw Hd H1 H2. unfold def_ok in *. destruct (def_blk_holds (snd e)) as (D1 & D2 & _).
+    rewrite (load_frame m A v nb (def_blk gsz (snd e)) (snd e)); auto.
+  Qed.
+
+  (** after a new live block [nb] (head of the block list) received a store inside it, every
+      other item keeps its word *)
+  Lemma frame_all (h : hs) nb A v rest :
+    pairwise (nb :: rest) ->
+    (forall it, In it (hs_live h) -> In (i_blk it) rest) ->
+    (forall e, In e (s_def (hs_st h)) -> In (def_blk gsz (snd e)) rest) ->
+    fst nb <= A -> A + 8 <= fst nb + snd nb ->
+    Forall (word_ok (s_mem (hs_st h))) (hs_live h) -> Forall (def_ok (s_mem (hs_st h))) (s_def (hs_st h)) ->
+    Forall (word_ok (store (s_mem (hs_st h)) A v)) (hs_live h) /\
+    Forall (def_ok (store (s_mem (hs_st h)) A v)) (s_def (hs_st h)).
+  Proof.
+    intros (HF & _) HL HD H1 H2 HW HDf. rewrite Forall_forall in HF. split.
+    - rewrite Forall_forall in *. intros it Hit. eapply word_ok_frame; [apply HW; exact Hit|apply HF, HL, Hit|exact H1|exact H2].
+    - rewrite Forall_forall in *. intros e He. eapply def_ok_frame; [apply HDf; exact He|apply HF, HD, He|exact H1|exact H2].
+  Qed.
+
+  Lemma in_live_blocks (h : hs) it : In it (hs_live h) -> In (i_blk it) (all_blocks gsz dsz h).
+  Proof. intros H. unfold all_blocks. apply in_or_app. left. apply in_map. exact H. Qed.
+  Lemma in_def_blocks (h : hs) e : In e (s_def (hs_st h)) -> In (def_blk gsz (snd e)) (all_blocks gsz dsz h).
+  Proof.
+    intros H. unfold all_blocks, free_blocks. apply in_or_app. right. apply in_or_app. right.
+    apply in_or_app. left. apply (in_map (fun e => def_blk gsz (snd e))). exact H.
+  Qed.
+
+  Lemma sstep_inv h o h' : SInv h -> sstep mmap gsz dsz h o = Some h' -> SInv h'.
+  Proof.
+    intros (HB & HW & HDs & HDf) Hst. destruct gsz_ok as (G1 & G2). destruct dsz_ok as (D1 & D2).
+    destruct h as [st live]. cbn [hs_st hs_live] in *.
+    destruct o as [w n|w top|w|w p]; cbn [sstep hs_st hs_live] in Hst.
+    - (* SGet *)
+      destruct (n =? 0) eqn:En.
+      + (* default *)
+        unfold stack_get in Hst. cbn [Z.eqb] in Hst.
+        destruct (pop_w w (s_def st)) as [[top r]|] eqn:Ep.
+        * injection Hst as <-. apply pop_w_perm in Ep.
+          assert (Hin : In (w, top) (s_def st)) by (eapply Permutation_in; [apply Permutation_sym; exact Ep|left; reflexivity]).
+          split; [|split; [|split]]; cbn [hs_st hs_live s_fl s_mem s_def].
+          -- eapply BInv_perm; [|exact HB]. unfold all_blocks, free_blocks. cbn [hs_st hs_live s_fl s_def s_desc map i_blk app].
+             rewrite !app_assoc. rewrite <- !app_assoc.
+             rewrite (app_assoc (map i_blk live)).
+             eapply perm_trans; [apply (perm_pull (map i_blk live ++ map blk_of_ent (fl_lists (s_fl st)))
+                                                  (map (fun e => def_blk gsz (snd e)) (s_def st))
+                                                  (map (fun e => def_blk gsz (snd e)) r) _ (def_blk gsz top))|].
+             { apply (Permutation_map (fun e => def_blk gsz (snd e))) in Ep. exact Ep. }
+             rewrite <- !app_assoc. apply Permutation_refl.
+          -- constructor; [|exact HW]. intros _. cbn [i_ptr i_word i_blk].
+             rewrite Forall_forall in HDf. specialize (HDf _ Hin). unfold def_ok in HDf. cbn [snd] in HDf.
+             destruct (def_blk_holds top) as (B1 & B2 & _). repeat split; auto.
+          -- constructor; [intros Hk; discriminate|exact HDs].
+          -- eapply Permutation_Forall in HDf; [|exact Ep]. inversion HDf; assumption.
+        * injection Hst as <-.
+          set (len := round_page gsz) in *. set (a := mmap (fl_regs (s_fl st)) len) in *.
+          set (top := a + gsz - 16) in *.
+          destruct (round_page_spec gsz ltac:(lia) G2) as (Hr & _ & _). fold len in Hr.
+          assert (Hblk : def_blk gsz top = (a, len)) by (unfold def_blk, top; f_equal; lia).
+          assert (HB' : BInv ((a, len) :: all_blocks gsz dsz (mkHs st live)) ((a, len) :: fl_regs (s_fl st))).
+          { apply (BInv_fresh mmap _ _ a len [(a, len)] mmap_fresh HB); [lia|reflexivity|cbn; split; [constructor|exact I]|].
+            intros b [<-|[]]. cbn. unfold inside; cbn. lia. }
+          destruct (frame_all (mkHs st live) (a, len) (top + 8) 0 (all_blocks gsz dsz (mkHs st live)))
+            as (HW' & HDf'); [exact (proj1 HB')|apply in_live_blocks|apply in_def_blocks| | |exact HW|exact HDf|];
+            [cbn; unfold top; lia|cbn; unfold top; lia|].
+          split; [|split; [|split]]; cbn [hs_st hs_live s_fl s_mem s_def add_region fl_regs].
+          -- unfold all_blocks, free_blocks. cbn [hs_st hs_live s_fl s_def s_desc add_region fl_lists map i_blk app].
+             rewrite Hblk. exact HB'.
+          -- constructor; [|exact HW']. intros _. cbn [i_ptr i_word i_blk].
+             split; [apply load_store_same|]. destruct (def_blk_holds top) as (B1 & B2 & _). auto.
+          -- constructor; [intros Hk; discriminate|exact HDs].
+          -- exact HDf'.
+      + (* custom *)
+        destruct ((1 <=? n) && (n + 4095 <? 2 ^ 64) && (round_page n <=? 2 ^ 30))%bool eqn:Eg; [|discriminate].
+        apply andb_true_iff in Eg. destruct Eg as (Eg & Eg3). apply andb_true_iff in Eg. destruct Eg as (Eg1 & Eg2).
+        apply Z.leb_le in Eg1. apply Z.ltb_lt in Eg2. apply Z.leb_le in Eg3.
+        set (r := round_page n) in *.
+        destruct (size_class r) as [i rs| |] eqn:Ec; try discriminate.
+        destruct (size_class_Class _ _ _ Ec) as (Hrs & Hi). subst rs.
+        pose proof (round_page_pos n Eg1 Eg2) as Hr4. fold r in Hr4.
+        destruct (size_class_spec r ltac:(lia)) as (i' & Hc' & _ & Hfit & _).
+        rewrite Ec in Hc'. injection Hc' as <-.
+        unfold stack_get in Hst. rewrite En in Hst. fold r in Hst.
+        destruct (flmalloc mmap (s_fl st) w r) as [b f'| | |] eqn:Efl; try discriminate.
+        injection Hst as <-.
+        set (top := b + r - 16) in *.
+        replace (top - r + 16) with b by (unfold top; lia).
+        assert (HB' : exists rest, Permutation (all_blocks gsz dsz (mkHs (mkS f' (s_def st) (s_desc st) (store (s_mem st) (top + 8) r))
+                                                  (mkI true top (b, 2 ^ i) r :: live))) ((b, 2 ^ i) :: rest) /\
+                                   BInv ((b, 2 ^ i) :: rest) (fl_regs f') /\
+                                   (forall x, In x (map i_blk live) -> In x rest) /\
+                                   (forall e, In e (s_def st) -> In (def_blk gsz (snd e)) rest)).
+        { destruct (flmalloc_cases mmap _ _ _ _ _ _ _ Ec Efl) as [(Hregs & HP)|(len & newb & Hregs & Ha & Hlen & HP & Hnew & Hin)].
+          - exists (map i_blk live ++ map blk_of_ent (fl_lists f') ++ map (fun e => def_blk gsz (snd e)) (s_def st)
+                      ++ map (fun e => desc_blk dsz (snd e)) (s_desc st)).
+            split; [apply Permutation_refl|]. split; [|split].
+            + rewrite Hregs. eapply BInv_perm; [|exact HB].
+              unfold all_blocks, free_blocks. cbn [hs_st hs_live s_fl s_def s_desc].
+              apply (perm_pull (map i_blk live) _ _ _ _ HP).
+            + intros x Hx. apply in_or_app. left. exact Hx.
+            + intros e He. apply in_or_app. right. apply in_or_app. right. apply in_or_app. left.
+              apply (in_map (fun e => def_blk gsz (snd e))). exact He.
+          - exists (map i_blk live ++ map blk_of_ent (fl_lists f') ++ map (fun e => def_blk gsz (snd e)) (s_def st)
+                      ++ map (fun e => desc_blk dsz (snd e)) (s_desc st)).
+            split; [apply Permutation_refl|]. split; [|split].
+            + rewrite Hregs. eapply BInv_perm;
+                [|apply (BInv_fresh mmap _ _ b len newb mmap_fresh HB Hlen Ha Hnew Hin)].
+              unfold all_blocks, free_blocks. cbn [hs_st hs_live s_fl s_def s_desc].
+              (* newb ++ L ++ F1 ++ R  ~  (b,2^i) :: L ++ F1' ++ R   with  (b,2^i)::F1' ~ newb ++ F1 *)
+              set (L := map i_blk live). set (R := map (fun e => def_blk gsz (snd e)) (s_def st) ++ map (fun e => desc_blk dsz (snd e)) (s_desc st)).
+              eapply perm_trans; [apply Permutation_app_swap_app|].
+              eapply perm_trans; [apply Permutation_app_head; rewrite app_assoc; apply Permutation_app_tail; apply Permutation_sym; exact HP|].
+              cbn [app]. apply Permutation_sym, Permutation_middle.
+            + intros x Hx. apply in_or_app. left. exact Hx.
+            + intros e He. apply in_or_app. right. apply in_or_app. right. apply in_or_app. left.
+              apply (in_map (fun e => def_blk gsz (snd e))). exact He. }
+        destruct HB' as (rest & HPall & HBr & HLr & HDr).
+        destruct (frame_all (mkHs st live) (b, 2 ^ i) (top + 8) r rest) as (HW' & HDf');
+          [exact (proj1 HBr)|intros it Hit; apply HLr, in_map, Hit|exact HDr| | |exact HW|exact HDf|];
+          [cbn; unfold top; lia|cbn; unfold top; lia|].
+        split; [|split; [|split]]; cbn [hs_st hs_live s_fl s_mem s_def].
+        -- eapply BInv_perm; [apply Permutation_sym; exact HPall|exact HBr].
+        -- constructor; [|exact HW']. intros _. cbn [i_ptr i_word i_blk fst snd].
+           split; [apply load_store_same|]. split; [unfold top; lia|]. split; [unfold top; lia|].
+           right. split; [lia|]. exists i. split; [exact Ec|]. f_equal. unfold top. lia.
+        -- constructor; [intros Hk; discriminate|exact HDs].
+        -- exact HDf'.
+    - (* SRel *)
+      destruct (item_remove true top live) as [[it l']|] eqn:Er; [|discriminate].
+      destruct (item_remove_perm _ _ _ _ _ Er) as (HPl & Hk & Hp).
+      assert (Hit : In it live) by (eapply Permutation_in; [apply Permutation_sym; exact HPl|left; reflexivity]).
+      pose proof HW as HWa. rewrite Forall_forall in HWa. destruct (HWa it Hit Hk) as (Hl & Hc1 & Hc2 & Hsh).
+      rewrite Hp in *.
+      assert (HW' : Forall (word_ok (s_mem st)) l') by (eapply Permutation_Forall in HW; [|exact HPl]; inversion HW; assumption).
+      assert (HDs' : Forall desc_ok l') by (eapply Permutation_Forall in HDs; [|exact HPl]; inversion HDs; assumption).
+      assert (HPb : Permutation (map i_blk live) (i_blk it :: map i_blk l')) by (apply (Permutation_map i_blk) in HPl; exact HPl).
+      unfold stack_release in Hst. rewrite Hl in Hst.
+      destruct Hsh as [(Hw0 & Hblk)|(Hwn & i & Hci & Hblk)].
+      + rewrite Hw0 in Hst. cbn [Z.eqb] in Hst. injection Hst as <-.
+        split; [|split; [|split]]; cbn [hs_st hs_live s_fl s_mem s_def].
+        * eapply BInv_perm; [|exact HB]. unfold all_blocks, free_blocks. cbn [hs_st hs_live s_fl s_def s_desc map snd].
+          rewrite <- Hblk.
+          apply (perm_push (map i_blk live) (map i_blk l') (map blk_of_ent (fl_lists (s_fl st))) _ _ (i_blk it) HPb).
+        * exact HW'.
+        * exact HDs'.
+        * constructor; [unfold def_ok; cbn [snd]; rewrite Hl; exact Hw0|exact HDf].
+      + destruct (i_word it =? 0) eqn:E0; [apply Z.eqb_eq in E0; contradiction|].
+        unfold flfree in Hst. rewrite Hci in Hst. injection Hst as <-.
+        split; [|split; [|split]]; cbn [hs_st hs_live s_fl s_mem s_def fl_regs].
+        * eapply BInv_perm; [|exact HB]. unfold all_blocks, free_blocks. cbn [hs_st hs_live s_fl s_def s_desc fl_lists map].
+          change (blk_of_ent (w, i, top - i_word it + 16)) with (top - i_word it + 16, 2 ^ i). rewrite <- Hblk.
+          apply (perm_push (map i_blk live) (map i_blk l') [] _ _ (i_blk it) HPb).
+        * exact HW'.
+        * exact HDs'.
+        * exact HDf.
+    - (* DGet *)
+      unfold desc_get in Hst. destruct (pop_w w (s_desc st)) as [[p r]|] eqn:Ep.
+      + injection Hst as <-. apply pop_w_perm in Ep.
+        split; [|split; [|split]]; cbn [hs_st hs_live s_fl s_mem s_def].
+        * eapply BInv_perm; [|exact HB]. unfold all_blocks, free_blocks. cbn [hs_st hs_live s_fl s_def s_desc map i_blk app].
+          rewrite !app_assoc. apply perm_pull_end.
+          apply (Permutation_map (fun e => desc_blk dsz (snd e))) in Ep. exact Ep.
+        * constructor; [intros Hk; discriminate|exact HW].
+        * constructor; [intros _; reflexivity|exact HDs].
+        * exact HDf.
+      + injection Hst as <-.
+        set (len := round_page dsz) in *. set (a := mmap (fl_regs (s_fl st)) len) in *.
+        destruct (round_page_spec dsz ltac:(lia) D2) as (Hr & _ & _). fold len in Hr.
+        split; [|split; [|split]]; cbn [hs_st hs_live s_fl s_mem s_def add_region fl_regs].
+        * unfold all_blocks, free_blocks. cbn [hs_st hs_live s_fl s_def s_desc add_region fl_lists map i_blk app].
+          apply (BInv_fresh mmap _ _ a len [desc_blk dsz a] mmap_fresh HB); [lia|reflexivity|cbn; split; [constructor|exact I]|].
+          intros b [<-|[]]. unfold desc_blk. fold len. cbn. unfold inside; cbn. lia.
+        * constructor; [intros Hk; discriminate|exact HW].
+        * constructor; [intros _; reflexivity|exact HDs].
+        * exact HDf.
+    - (* DRel *)
+      destruct (item_remove false p live) as [[it l']|] eqn:Er; [|discriminate].
+      destruct (item_remove_perm _ _ _ _ _ Er) as (HPl & Hk & Hp).
+      assert (Hit : In it live) by (eapply Permutation_in; [apply Permutation_sym; exact HPl|left; reflexivity]).
+      pose proof HDs as HDa. rewrite Forall_forall in HDa. pose proof (HDa it Hit Hk) as Hblk. rewrite Hp in Hblk.
+      assert (HW' : Forall (word_ok (s_mem st)) l') by (eapply Permutation_Forall in HW; [|exact HPl]; inversion HW; assumption).
+      assert (HDs' : Forall desc_ok l') by (eapply Permutation_Forall in HDs; [|exact HPl]; inversion HDs; assumption).
+      assert (HPb : Permutation (map i_blk live) (i_blk it :: map i_blk l')) by (apply (Permutation_map i_blk) in HPl; exact HPl).
+      injection Hst as <-.
+      split; [|split; [|split]]; cbn [hs_st hs_live s_fl s_mem s_def desc_release].
+      + eapply BInv_perm; [|exact HB]. unfold all_blocks, free_blocks. cbn [hs_st hs_live s_fl s_def s_desc desc_release map snd].
+        rewrite <- Hblk.
+        pose proof (perm_push (map i_blk live) (map i_blk l')
+                      (map blk_of_ent (fl_lists (s_fl st)) ++ map (fun e => def_blk gsz (snd e)) (s_def st))
+                      (map (fun e => desc_blk dsz (snd e)) (s_desc st)) [] (i_blk it) HPb) as HP.
+        rewrite !app_nil_r in HP. rewrite <- !app_assoc in HP. exact HP.
+      + exact HW'.
+      + exact HDs'.
+      + exact HDf.
+  Qed.
+
+  Lemma srun_inv : forall ops h h', SInv h -> srun mmap gsz dsz ops h = Some h' -> SInv h'.
+  Proof.
+    induction ops as [|o ops IH]; intros h h' Hinv H; cbn [srun] in H.
+    - injection H as <-. exact Hinv.
+    - destruct (sstep mmap gsz dsz h o) as [h1|] eqn:E; [|discriminate].
+      eapply IH; [eapply sstep_inv; eassumption|exact H].
+  Qed.
+
+  (** For every history of stack / record requests and well-formed releases on any number of
+      workers: all blocks behind live stacks, live records and free-list entries (class lists,
+      default-stack lists, record lists of all workers) are pairwise disjoint and inside
+      regions obtained from mmap; the memory a live thread uses as its stack lies inside its
+      block; and a release performed now would recompute exactly that block (its size word is
+      intact whatever other stacks were handed out and written in the meantime). *)
+  Theorem stack_histories : forall ops h, srun mmap gsz dsz ops hs_init = Some h ->
+    pairwise (all_blocks gsz dsz h) /\
+    (forall b, In b (all_blocks gsz dsz h) ->
+       0 < snd b /\ exists r, In r (fl_regs (s_fl (hs_st h))) /\ inside b r) /\
+    (forall it, In it (hs_live h) -> i_kind it = true ->
+       fst (i_blk it) <= i_ptr it + 16 - (if i_word it =? 0 then gsz else i_word it) /\
+       i_ptr it + 16 <= fst (i_blk it) + snd (i_blk it) /\
+       match release_target (s_mem (hs_st h)) (i_ptr it) with
+       | RDefault t => i_word it = 0 /\ t = i_ptr it /\ i_blk it = def_blk gsz t
+       | RClass i s => i_word it <> 0 /\ i_blk it = (s, 2 ^ i)
+       | RBad => False
+       end).
+  Proof.
+    intros ops h H. destruct (srun_inv ops hs_init h SInv_init H) as ((HP & _ & HI) & HW & _ & _).
+    split; [exact HP|]. split; [exact HI|].
+    intros it Hit Hk. rewrite Forall_forall in HW. destruct (HW it Hit Hk) as (Hl & Hc1 & Hc2 & Hsh).
+    unfold release_target. rewrite Hl.
+    destruct Hsh as [(Hw0 & Hblk)|(Hwn & i & Hci & Hblk)].
+    - rewrite Hw0. cbn [Z.eqb]. rewrite Hblk. unfold def_blk; cbn [fst snd].
+      destruct gsz_ok as (G1 & G2). destruct (round_page_spec gsz ltac:(lia) G2) as (Hr & _ & _).
+      repeat split; try lia.
+    - destruct (i_word it =? 0) eqn:E0; [apply Z.eqb_eq in E0; contradiction|].
+      rewrite Hci. rewrite Hblk in *. cbn [fst snd] in *. repeat split; try lia; try exact Hwn.
+  Qed.
+End Oracle.
